@@ -19,6 +19,10 @@ ASSUME = [
 ]
 
 
+class NoClaim(Exception):
+    pass
+
+
 def expected_default_mapping(spec):
     """the canonical default, computed independently of the compiler"""
     m = {"rank-order": {t: list(r) for t, r in spec["decl"].items()}, "loop-order": {}}
@@ -33,6 +37,20 @@ def expected_default_mapping(spec):
                 lo += ["%s%d" % (r, i) for i in range(len(dirs), -1, -1)]
             else:
                 lo.append(r)
+        # flatten(): the statement only fixes the case where the flattened ranks are adjacent, in the order of the
+        # key, in the default order (replaced in place by the flattened rank, itself replaced by its levels); other
+        # placements are not claimed (NoClaim)
+        for key in (part.get(out) or {}):
+            if key.strip().startswith("("):
+                grp = [x.strip() for x in key.strip()[1:-1].split(",")]
+                if not all(g in lo for g in grp):
+                    raise NoClaim("flatten of partition levels")
+                at = lo.index(grp[0])
+                if lo[at:at + len(grp)] != grp:
+                    raise NoClaim("flattened ranks not adjacent in key order")
+                flat = "".join(grp)
+                dirs = (part.get(out) or {}).get(flat)
+                lo[at:at + len(grp)] = ["%s%d" % (flat, i) for i in range(len(dirs), -1, -1)] if dirs else [flat]
         m["loop-order"][out] = lo
     if part:
         m["partitioning"] = copy.deepcopy(part)
@@ -129,7 +147,10 @@ def work_text(job):
     spec = job["spec"]
     base = {"name": "text/" + spec["name"], "concrete": True}
     explicit = copy.deepcopy(spec)
-    explicit["mapping"] = expected_default_mapping(spec)
+    try:
+        explicit["mapping"] = expected_default_mapping(spec)
+    except NoClaim as nc:
+        return dict(base, status="rejected", why="no claim: %s" % nc)
     variants = []
     for drop in (("rank-order",), ("loop-order",), ("rank-order", "loop-order")):
         v = copy.deepcopy(explicit)
@@ -198,6 +219,14 @@ def text_specs(tier, seed):
     deep = ["uniform_shape(%d)" % (2 ** i) for i in range(11, 0, -1)]
     out.append({"name": "default/deep-partition", "decl": {"A": ["K", "M"], "B": ["K", "N"], "Z": ["M", "N"]},
                 "exprs": ["Z[m, n] = A[k, m] * B[k, n]"], "mapping": {"partitioning": {"Z": {"K": deep}}}, "extents": {}})
+    # flatten() of ranks that are adjacent, in key order, in the default order (with and without a split of the flattened rank)
+    fd = {"A": ["I", "M", "K", "J"], "B": ["M", "K", "J"], "Z": ["I"]}
+    fe = ["Z[i] = A[i, m, k, j] * B[m, k, j]"]
+    for nm, pp in (("MK", {"(M, K)": ["flatten()"]}), ("KJ", {"(K, J)": ["flatten()"]}), ("MKJ", {"(M, K, J)": ["flatten()"]}),
+                   ("MK+occ", {"(M, K)": ["flatten()"], "MK": ["uniform_occupancy(A.4)"]}),
+                   ("MK+occ2", {"(M, K)": ["flatten()"], "MK": ["uniform_occupancy(A.4)", "uniform_occupancy(A.2)"]}),
+                   ("MK+J", {"(M, K)": ["flatten()"], "J": ["uniform_shape(2)"]})):
+        out.append({"name": "default/flatten-%s" % nm, "decl": fd, "exprs": fe, "mapping": {"partitioning": {"Z": pp}}, "extents": {}})
     # partitioning given for one Einsum of a cascade only / explicitly empty for the other
     d, ex = extra[-1]
     out.append({"name": "default/cascade-part-first", "decl": d, "exprs": ex,
